@@ -19,6 +19,7 @@ import signal
 import subprocess
 import sys
 import time
+import zlib
 import traceback
 
 VERIF = os.path.dirname(os.path.dirname(os.path.abspath(__file__)))
@@ -174,8 +175,10 @@ def _impl_chunk(lines):
     import impl  # noqa  (imports the real code from REPO)
     out = []
     signal.signal(signal.SIGALRM, _alarm)
-    for line in lines:
+    quick_ones = []
+    for idx, line in enumerate(lines):
         signal.alarm(int(os.environ.get("VERIF_CASE_TIMEOUT", "60")))
+        _t = time.time()
         try:
             out.append(impl.evaluate(line))
         except Hang:
@@ -185,6 +188,26 @@ def _impl_chunk(lines):
                        + " @ " + traceback.format_exc().strip().split("\n")[-3].strip()[:200])
         finally:
             signal.alarm(0)
+        if time.time() - _t < 0.3 and not line.startswith(HEAVY_OPS) and zlib.crc32(line.encode()) % 8 == 0:
+            quick_ones.append(idx)
+    # every operation line is self-contained (fresh objects, oracle inputs instead of randomness), so its result is a function
+    # of the line: a sample is evaluated a second time, after everything else this process has done, and must say the same.
+    # A difference is state that survives between calls (module / class level caches, shared tables); the second result is
+    # reported, marked, so that it shows up as a disagreement with the model or as a failed property.
+    if not os.environ.get("VERIF_NO_REPEAT"):
+        for idx in quick_ones[::-1][:40]:
+            if out[idx].startswith(("harness-error", "hang")):
+                continue
+            signal.alarm(int(os.environ.get("VERIF_CASE_TIMEOUT", "60")))
+            try:
+                again = impl.evaluate(lines[idx])
+            except BaseException:
+                continue
+            finally:
+                signal.alarm(0)
+            if again != out[idx] and not (lines[idx].startswith("prop.") and again.startswith("ok")):
+                out[idx] = (again + f" [history-dependent: the first evaluation in this process gave `{out[idx][:300]}`, the second, "
+                            f"after {len(lines) - idx - 1} other operations, this; rerun the check with the same VERIF_SEED to replay]")
     return out
 
 
